@@ -847,6 +847,33 @@ func runC16(c *Ctx) {
 					}
 				}
 			}
+			if !stored {
+				// … or recorded on the error path only (`if err != nil { s.err = err; … }`): with no error there is
+				// nothing to make sticky, and the entry test has already established that err was nil
+				allInstrs(nextFn, func(in2 ssa.Instruction) {
+					s, ok := in2.(*ssa.Store)
+					if !ok {
+						return
+					}
+					fa, ok := s.Addr.(*ssa.FieldAddr)
+					if !ok {
+						return
+					}
+					if _, f := fieldVarOf(fa); !sameField(f, errF) {
+						return
+					}
+					ex, ok := s.Val.(*ssa.Extract)
+					if !ok || ex.Tuple != ssa.Value(call) || ex.Index != 1 {
+						return
+					}
+					for _, cm := range cmpsAt(s.Block()) {
+						if cm.X == ssa.Value(ex) && isNilConst(cm.Y) && cm.Op == token.NEQ {
+							// and the no-error edge must not skip a non-nil error: it is the complement of this test
+							stored = true
+						}
+					}
+				})
+			}
 			c.judge(stored, "R-ERR-STICKY", "shell.(*Scanner).Next:err-assign", in.Pos(), "err assigned from the read", "the error of ReadByte is not recorded in err: Next could read past the end again")
 		})
 	}
